@@ -1,6 +1,7 @@
 import DmrVerif.Driver.Loop
 import DmrVerif.Driver.Rs
+import DmrVerif.Driver.TranslRs
 
-/-! model driver for property C11 -/
+/-! model driver for property C11 (`t.rs.*`: the definitions translated from the source, `Gen/TranslRs.lean`) -/
 
-def main : IO Unit := Dmr.Driver.runMain [Dmr.Driver.rsOp]
+def main : IO Unit := Dmr.Driver.runMain [Dmr.Driver.rsOp, Dmr.Driver.translRsOp]
